@@ -231,6 +231,10 @@ def _worker_init(modname):
     sys.setrecursionlimit(10000)
     _quiet()
     _MOD = importlib.import_module(modname)
+    import signal
+
+    # pkgcore.ebuild.processor installs a SIGTERM handler raising SystemExit; pool shutdown would print tracebacks
+    signal.signal(signal.SIGTERM, signal.SIG_DFL)
 
 
 def _worker(task):
